@@ -40,9 +40,9 @@ ASSUMPTIONS = list(c19.ASSUMPTIONS) + [
     "a scalar read may come back as a 0-d DimArray on disk and as a NumPy scalar in memory: compared by value",
     "DimArray blocks assigned on disk carry all of the variable's dimensions (documented usage)",
 ]
-MANDATORY = ["read:variable-not-on-the-file's-first-dimension", "read:label", "read:position", "read:tol", "read:dataset", "read:absent->IndexError", "read:str-axis", "read:0d", "read:mask", "read:slice",
+MANDATORY = ["read:variable-not-on-the-file's-first-dimension", "read:label", "read:position", "read:tol", "read:dataset", "read:absent->IndexError", "read:str-axis", "read:0d", "read:0d-with-an-index", "read:mask", "read:slice",
              "write:replace-variable", "write:label", "write:position", "write:ndarray", "write:dimarray", "write:reopen", "unlimited:append-scalar", "unlimited:append-slice",
-             "unlimited:append-list", "unlimited:second-variable", "multi:stack", "multi:concatenate", "multi:align", "multi:keys"]
+             "unlimited:append-list", "unlimited:second-variable", "multi:stack", "multi:concatenate", "multi:align", "multi:keys", "multi:concatenate-keys"]
 
 
 def budget(tier):
@@ -200,7 +200,8 @@ def multi_case(draw):
                 o[d] = [(x + "_" if isinstance(x, str) else x + 100) for x in l[:-1]] + list(l[-1:])       # same length, other labels: must be refused
         others.append(o)
     return {"mode": "multi", "file": fs, "others": others, "how": how, "cdim": cdim, "align": align, "sort": draw(st.booleans()) if align else False,
-            "keys": draw(st.sampled_from([None, "str", "int"])), "names": draw(st.sampled_from([None, None, "first"]))}
+            "keys": draw(st.sampled_from([None, "str", "int"])), "names": draw(st.sampled_from([None, None, "first"])),
+            "ckeys": draw(st.sampled_from([None, None, "reversed", "rotated", "subset"]))}
 
 
 def strategy(tier):
@@ -434,6 +435,16 @@ def run_read(case, tmp):
             one = {k0: pdict[k0]}
             if pidx[dims.index(k0)]["k"] != "pmask":
                 differential(lambda: h.isel(**one), lambda: loaded.isel(**one), base + "h.isel(%s)" % core.jsonable(one), sig, compare=same_dataset_ordered)
+        if nd == 0 and isinstance(A, da.DimArray):
+            # a variable without dimensions takes no index, on disk as in memory: both refuse (an index must not be silently ignored)
+            sig = {"mode": "read-0d"}
+            for iname, on_disk, in_mem in (("[0]", lambda: v[0], lambda: A[0]), ("[[0, 1]]", lambda: v[[0, 1]], lambda: A[[0, 1]]), ("[0:1]", lambda: v[0:1], lambda: A[0:1]),
+                                           (".ix[0]", lambda: v.ix[0], lambda: A.ix[0]), ("read(indices=0)", lambda: v.read(indices=0), lambda: A.take(0)),
+                                           ("read_nc(f, name, indices=0)", lambda: da.read_nc(path, name, indices=0), lambda: A.take(0))):
+                m_ = outcome(in_mem)
+                d_ = outcome(on_disk)
+                check((m_[0] == "exc") == (d_[0] == "exc"), "on-disk-and-in-memory-disagree", {"what": base + "0-d variable " + iname, "in_memory": repr(m_[1])[:200], "on_disk": repr(d_[1])[:200]}, sig)
+            cl.add("read:0d-with-an-index")
         # classes
         if any(l and core.label_kind(l) == "s" for l in labels):
             cl.add("read:str-axis")
@@ -667,6 +678,20 @@ def run_multi(case, tmp):
         differential(lambda: da.read_nc(list(paths), names, axis=case["cdim"], **kw), lambda: da.concatenate_ds(list(singles), axis=case["cdim"], **kw), what, sig, compare=same_dataset_ordered)
         per_variable = lambda k: da.concatenate([s_[k] for s_ in singles], axis=case["cdim"], **kw)
         cl.add("multi:concatenate")
+        if case.get("ckeys"):
+            # "with the given keys": along an existing axis the keys select and order the concatenated labels
+            try:
+                alll = da.concatenate_ds(list(singles), axis=case["cdim"], **kw).axes[case["cdim"]].values
+            except Exception:
+                alll = None
+            if alll is not None and len(alll) >= 2 and len(set(alll.tolist())) == len(alll):
+                ck = {"reversed": alll[::-1], "rotated": np.roll(alll, 1), "subset": alll[::2]}[case["ckeys"]].copy()
+                differential(lambda: da.read_nc(list(paths), names, axis=case["cdim"], keys=list(ck.tolist()), **kw),
+                             lambda: da.concatenate_ds(list(singles), axis=case["cdim"], **kw).reindex_axis(ck, axis=case["cdim"]), what + " keys=%s" % core.jsonable(ck), sig, compare=same_dataset_ordered)
+                got = outcome(lambda: da.read_nc(list(paths), names, axis=case["cdim"], keys=list(ck.tolist()), **kw))
+                if got[0] == "ok":
+                    check(core.same_labels(got[1].axes[case["cdim"]].values, ck.tolist()), "multi-file-keys-order", {"what": what, "got": core.jsonable(got[1].axes[case["cdim"]].values), "keys": core.jsonable(ck)}, sig)
+                cl.add("multi:concatenate-keys")
     # the statement's own wording: "equals reading each file and stacking / concatenating the results" - variable by variable with the
     # DimArray-level joins (independent of the Dataset-level code that the multi-file reader itself uses)
     whole = outcome(lambda: da.read_nc(list(paths), names, axis="stk" if case["how"] == "stack" else case["cdim"], **(kwk if case["how"] == "stack" else kw)))
